@@ -251,6 +251,9 @@ def rule_c(ck, R):
                 nrep += 1
                 facts = eng.path_facts(p) + [Lin.const(1) - L(N)]      # n >= 1: the only caller returns early for n == 0 (C02.a)
                 facts = facts + size_facts([f_ for f_ in facts if isinstance(f_, Lin)])
+                if addr_of(p.ret) is None:
+                    bad = bad or 'a failure is returned under {%s} without naming an address (the address field is never assigned on that path)' % '; '.join(fmt(c) for c in p.cond_terms()[-2:])[:160]
+                    continue
                 a = L(addr_of(p.ret))
                 rd = [e for e in p.effects if e.kind == 'icall' and e.name.endswith('read')]
                 eptr = rd[0].args[0][1]
@@ -271,6 +274,9 @@ def rule_c(ck, R):
             if code_of(p.ret) == C(E['REG_ACCESS_READONLY']):
                 nrep += 1
                 facts = eng.path_facts(p)
+                if addr_of(p.ret) is None:
+                    bad = bad or 'a failure is returned without naming an address'
+                    continue
                 a = L(addr_of(p.ret))
                 # area of this iteration
                 bases = [x for c in p.cond_terms() for x in sym.subterms(c) if x[0] == 'f' and x[2] == 'base']
